@@ -525,6 +525,25 @@ def inline_poll(caller, bb, coro, coro_path, helper_path, clo_alias):
     return True
 
 
+_REF_ENUMS = None
+
+
+def _is_new_enum(adt):
+    """an enum the reference tree does not have (a private status type introduced by the change under analysis): its
+    variants are threaded like Result/Option, so `let w = if changed { Wake::Waiters } else { Wake::Nobody }; match w {..}` reads as the branch it is"""
+    global _REF_ENUMS
+    if _REF_ENUMS is None:
+        try:
+            with open(os.path.join(VERIF, "rules", "spec", "known_shapes.json")) as f:
+                k = json.load(f)
+            _REF_ENUMS = set(k["enums"]) if "enums" in k else False
+        except Exception:
+            _REF_ENUMS = False
+    if _REF_ENUMS is False or not adt or adt.startswith(("std::", "core::", "alloc::")):
+        return False
+    return adt not in _REF_ENUMS
+
+
 def thread_known_variants(body):
     """Intra-procedural jump threading for a function that differs from the reference tree: where a block gives a
     local a known Result/Option variant (an aggregate, or the residual of a `?`) and a side-effect-free chain leads to
@@ -545,11 +564,17 @@ def thread_known_variants(body):
                 rv = s_["rv"]
                 known.pop(s_["place"]["l"], None)
                 kbools.pop(s_["place"]["l"], None)
-                if rv.get("agg") == "adt" and rv.get("adt") in ("std::result::Result", "std::option::Option") and isinstance(rv.get("variant"), str):
+                if rv.get("agg") == "adt" and isinstance(rv.get("variant"), str) and (rv.get("adt") in ("std::result::Result", "std::option::Option") or _is_new_enum(rv.get("adt"))):
                     known[s_["place"]["l"]] = (rv["variant"], None)
                 c_ = rv.get("use", {}).get("const") if isinstance(rv.get("use"), dict) else None
                 if c_ is not None and c_.get("ty") == "bool" and c_.get("v") in (0, 1, True, False):
                     kbools[s_["place"]["l"]] = bool(c_["v"])
+                # `_t = Variant; x = move _t` within the block
+                m_ = (rv["use"].get("move") or rv["use"].get("copy")) if isinstance(rv.get("use"), dict) else None
+                if m_ and not m_["p"] and m_["l"] in known:
+                    known[s_["place"]["l"]] = known[m_["l"]]
+                if m_ and not m_["p"] and m_["l"] in kbools:
+                    kbools[s_["place"]["l"]] = kbools[m_["l"]]
         nxt = None
         if t["k"] in ("goto", "false_edge", "drop") and isinstance(t.get("target"), int):
             nxt = t["target"]
@@ -568,6 +593,42 @@ def thread_known_variants(body):
         if head is not None:
             _redirect(t, nxt, head)
             n += 1
+    # a variant learnt from a test: on the `Err` edge of `match discriminant(x)` x is Err; a later re-test of x (or of a value it is
+    # moved into - `r.inspect_err(f)?` once rewritten) on that path is decided
+    preds = {}
+    for bi in range(nblocks):
+        for sx in _succ_fields(body["blocks"][bi]["term"]):
+            preds.setdefault(sx, []).append(bi)
+    for bi in range(nblocks):
+        blk = body["blocks"][bi]
+        t = blk["term"]
+        if t["k"] != "switch" or blk.get("cleanup") or t.get("threaded_switch"):
+            continue
+        on = t["on"].get("move") or t["on"].get("copy")
+        if not on or on["p"]:
+            continue
+        dstmt = None
+        for s_ in blk["stmts"]:
+            if s_["k"] == "assign" and not s_["place"]["p"] and s_["place"]["l"] == on["l"] and "discr" in s_["rv"]:
+                dstmt = s_["rv"]
+        if dstmt is None or dstmt["discr"]["p"] or not dstmt.get("variants"):
+            continue
+        x = dstmt["discr"]["l"]
+        vmap = {int(k): v for k, v in dstmt["variants"].items()}
+        if set(vmap.values()) - {"Ok", "Err", "Some", "None"}:
+            continue
+        explicit = [v for v, _ in t["targets"]]
+        edges = [(vmap.get(v), tb) for v, tb in t["targets"]]
+        rest = [nm for k, nm in vmap.items() if k not in explicit]
+        if len(rest) == 1:
+            edges.append((rest[0], t["otherwise"]))
+        for nm, tb in edges:
+            if nm is None or len(preds.get(tb, [])) != 1 or body["blocks"][tb].get("threaded"):
+                continue
+            head = _thread_chain(body, tb, {x: (nm, None)})
+            if head is not None:
+                _redirect(t, tb, head)
+                n += 1
     return n
 
 
@@ -627,6 +688,62 @@ def devirtualise_polls(raw, paths):
                 t["callee"] = c
                 n += 1
     return n
+
+
+def inline_new_edges(raw, ref_callees, changed, known, reinlined=None):
+    """A changed reference function that now calls a reference helper it did not call before (delegation to an existing
+    function: `Message::from_slice` built on `MessageView::from_slice`) is judged on what that call does: the helper's
+    body is spliced in at the new call sites only; the helper itself, and its other callers, are left as they are.
+    Returns [(callee, caller)]."""
+    bodies = raw["bodies"]
+    out = []
+    pristine = {}
+    for path in sorted(changed):
+        body = bodies.get(path)
+        if body is None or len(body["blocks"]) > 3000:
+            continue
+        base = path.split("::{closure")[0]
+        if base not in known:
+            continue
+        had = set(ref_callees.get(base, ()))
+        # what a re-inlined reference helper called on the reference tree was already reachable from here
+        grow = [h for h in had if h in (reinlined or ())]
+        while grow:
+            h = grow.pop()
+            for c in ref_callees.get(h, ()):
+                if c not in had:
+                    had.add(c)
+                    if c in (reinlined or ()):
+                        grow.append(c)
+        for rnd in range(2):
+            did = False
+            for bb in range(len(body["blocks"])):
+                t = body["blocks"][bb]["term"]
+                if t["k"] != "call" or t.get("inlined_future"):
+                    continue
+                cp = t["callee"]["path"]
+                if cp not in bodies or cp not in known or "{closure" in cp or cp == base or cp in had:
+                    continue
+                cb = bodies[cp]
+                if cb["kind"] not in ("fn", "method") or cb.get("is_async") or len(cb["blocks"]) > MAX_BLOCKS or cp in _direct_callees(cb):
+                    continue
+                if base in _direct_callees(cb):
+                    continue
+                if cp not in pristine:
+                    pristine[cp] = copy.deepcopy(cb)
+                clo_alias = {}
+                for q in list(bodies):
+                    if q.startswith(cp + "::{") and q != cp:
+                        alias = path + "::{inl#" + cp.rsplit("::", 1)[-1] + "}" + q[len(cp):]
+                        clo_alias[q] = alias
+                        if alias not in bodies:
+                            bodies[alias] = copy.deepcopy(bodies[q])
+                inline_call(body, bb, pristine[cp], cp, clo_alias)
+                out.append((cp, path))
+                did = True
+            if not did:
+                break
+    return out
 
 
 def apply(raw, known=None):
